@@ -128,21 +128,31 @@ def run_on_variant(prop: str, root: str, overrides: Dict[str, str]) -> Tuple[str
         return ("analysis-error", [], str(exc))
 
 
+def _job(args):
+    prop, root, sid, text = args
+    ov = apply_patch(root, text)
+    if ov is None:
+        return sid, "stale (context no longer matches the tree)", [], ""
+    status, keys, err = run_on_variant(prop, root, ov)
+    return sid, status, sorted({k.split("|")[0] for k in keys}), err
+
+
 def run(prop: str, ctx: Context) -> Tuple[int, List[Dict]]:
-    """Regression over the seeded changes that this property's rules are recorded to catch."""
+    """Regression over the seeded changes that this property's rules are recorded to catch (16 processes)."""
+    from concurrent.futures import ProcessPoolExecutor
+    jobs = [(prop, ctx.repo.root, s["id"], s["patch_text"]) for s in seeds() if prop in s.get("caught_by", {})]
     rows = []
     rc = 0
-    for s in seeds():
-        if prop not in s.get("caught_by", {}):
+    if not jobs:
+        return rc, rows
+    with ProcessPoolExecutor(max_workers=min(16, len(jobs))) as ex:
+        results = list(ex.map(_job, jobs))
+    for sid, status, rules, err in results:
+        if status.startswith("stale"):
+            rows.append({"seed": sid, "status": status})
             continue
-        ov = apply_patch(ctx.repo.root, s["patch_text"])
-        if ov is None:
-            rows.append({"seed": s["id"], "status": "stale (context no longer matches the tree)"})
-            continue
-        status, keys, err = run_on_variant(prop, ctx.repo.root, ov)
-        rules = sorted({k.split("|")[0] for k in keys})
-        rows.append({"seed": s["id"], "status": status, "rules": rules, "error": err[:160]})
+        rows.append({"seed": sid, "status": status, "rules": rules, "error": err[:160]})
         if status != "violations":
-            print(f"SEEDED-CHANGE-MISSED property={prop} seed={s['id']} status={status} {err[:120]}")
+            print(f"SEEDED-CHANGE-MISSED property={prop} seed={sid} status={status} {err[:120]}")
             rc = 2
     return rc, rows
